@@ -251,3 +251,11 @@ Theorem uaf_only_by_step_after_delete : forall C s t ch s' l, step C s t ch = So
   g_uaf s' = g_uaf s \/ (lfreed s = true /\ g_uaf s' = S (g_uaf s)).
 Proof. exact C14.ProofsUaf.uaf_step. Qed.
 Print Assumptions uaf_only_by_step_after_delete.
+
+(* C14 — without the deletion of the loop (c_del = false) the loop is never marked freed and no
+   library call is counted on a deleted loop, whatever the schedule *)
+From MV Require C14.ProofsUaf2.
+Theorem no_call_after_delete_without_deletion : forall C sched, c_del C = false ->
+  let s := exec sys (step C) init sched in lfreed s = false /\ g_uaf s = 0.
+Proof. exact C14.ProofsUaf2.no_uaf_without_deletion. Qed.
+Print Assumptions no_call_after_delete_without_deletion.
